@@ -300,6 +300,16 @@ def _ops():
         "genemetrics": ("genemetrics", 1, [], lambda e, p: reports.do_genemetrics(e["cnr"], None, 0.2, 3, is_sample_female=True)),
         "genemetrics-seg": ("genemetrics-seg", 1, [], lambda e, p: reports.do_genemetrics(e["cnr"], e["seg"], 0.2, 3, is_sample_female=True)),
         "genemetrics-cl": ("genemetrics-cl", 1, [], lambda e, p: reports.do_genemetrics(e["cnr"], e["cl"], 0.1, 1, skip_low=True)),
+        # called / annotated segments (extra columns) without skip_low, in the four (reference X, sample sex) cells:
+        # when the two agree shift_xx has nothing to shift, when they differ it shifts chrX
+        "genemetrics-cl-Xf": ("genemetrics-cl-Xf", 1, [], lambda e, p: reports.do_genemetrics(
+            e["cnr"], e["cl"], 0.1, 1, is_haploid_x_reference=False, is_sample_female=True)),
+        "genemetrics-cl-Xm": ("genemetrics-cl-Xm", 1, [], lambda e, p: reports.do_genemetrics(
+            e["cnr"], e["cl"], 0.1, 1, is_haploid_x_reference=False, is_sample_female=False)),
+        "genemetrics-sm-Yf": ("genemetrics-sm-Yf", 1, [], lambda e, p: reports.do_genemetrics(
+            e["cnr"], e["sm"], 0.2, 2, is_haploid_x_reference=True, is_sample_female=True)),
+        "genemetrics-sm-Ym": ("genemetrics-sm-Ym", 1, [], lambda e, p: reports.do_genemetrics(
+            e["cnr"], e["sm"], 0.2, 2, is_haploid_x_reference=True, is_sample_female=False)),
         "bintest-target": ("bintest-target", 1, [], lambda e, p: bintest.do_bintest(e["cnr"], e["sm"], 0.2, target_only=True)),
         "segmetrics-skip": ("segmetrics-skip", 1, [], lambda e, p: segmetrics.do_segmetrics(
             e["cnr"], e["cl"], ("mode", "p_ttest"), ("mad", "iqr", "bivar", "mse"), ("pi",), alpha=0.2, skip_low=True)),
@@ -350,7 +360,8 @@ def ops():
 BASE_OPS = ["target", "antitarget", "fix", "fix-plain", "segment-none", "segment-haar", "segment-haar-skip", "segment-hmm",
             "segment-hmm-tumor", "segment-hmm-germline", "segmetrics", "segmetrics-smooth", "call-none",
             "call-threshold", "call-clonal", "call-ci-cn", "call-sem", "call-ampdel", "call-cc", "genemetrics",
-            "genemetrics-seg", "genemetrics-cl", "bintest-target", "segmetrics-skip", "breaks", "bintest", "metrics", "export-bed", "export-vcf", "export-seg", "export-theta",
+            "genemetrics-seg", "genemetrics-cl", "genemetrics-cl-Xf", "genemetrics-cl-Xm", "genemetrics-sm-Yf", "genemetrics-sm-Ym",
+            "bintest-target", "segmetrics-skip", "breaks", "bintest", "metrics", "export-bed", "export-vcf", "export-seg", "export-theta",
             "center_all-copy", "shuffle-copy", "merge", "flatten", "subtract", "intersection", "subdivide", "resize", "by_arm",
             "by_gene", "by_gene-list", "by_gene-tuple", "squash_genes-list", "transfer_fields-list",
             "gene_intervals-list"]
